@@ -1,5 +1,466 @@
-import Netpol.Model.Engine
+import Netpol.Proofs.FormatLayer
+import Netpol.Proofs.FormatParse
+import Netpol.Proofs.FormatExposure
+/-! C09 — every output format faithfully encodes the computed result.
+
+The formatters are modelled byte for byte in `Model/Format.lean` (tied to the Go code by the K-diff of the `fmt` family:
+the hex of every output of `ConnectionsListToString` / `ConnectivityDiffToString` is compared with the model's). Here:
+
+(a) *table*: every formatter is `render (rows input)`, where `rows input` is a permutation of the (src, dst, conn)
+    triples of the computed entries (`list_tables`, `mem_*_iff`, `*_nodup`); json, csv and md share one table
+    (`table`), txt and dot order the same rows by their own lines. For the diff formats the table holds exactly the
+    changed / added / removed entries (dot: also the unchanged ones) with both connection strings and the
+    new/lost annotation (`diff_tables`, `diff_dot_table`).
+
+(b) *parse-back*: for every format a function from the output text to the table, and the proof that it inverts the
+    renderer when the field strings satisfy a decidable, format-specific condition (`*_parse_back`); hence equal
+    outputs come from equal tables, i.e. from the same set of triples (`*_output_determines_triples`).
+
+What is and is not covered:
+* the well-formedness conditions exclude exactly the characters that would make a format ambiguous or that the format
+  escapes: txt — blank in a peer string, newline; md — `|`, newline; csv — quote, newline (commas are handled: the
+  `encoding/csv` quoting is modelled and inverted); json — the characters `encoding/json` escapes; dot — the characters
+  `%q` escapes; diff txt — `", "` inside a field, newline; diff csv — additionally `;` (the Go code joins the fields
+  with `;` and splits again). Peer strings of Kubernetes objects and the connection strings satisfy all of them
+  (checked on examples below, not proved for every engine output);
+* for fields that need escaping the renderers are still modelled exactly (and K-diffed), but not inverted here;
+* dot: the edges are read back (src, dst, label, colours); node lines, clusters and the legend are shown not to
+  read as edges; the node colours of the diff graph (new / lost peers) are not parsed back;
+* exposure-analysis sections (`--exposure`): modelled and K-diffed for all five formats (`listToStringX`); here only
+  part (a): the tables of the egress / ingress sections are permutations of the exposure rows (`exposure_tables`), whose
+  members are characterised in `mem_xRows_iff` (entries of the exposed peers, and the report's connections with IP
+  blocks). No parse-back for these sections (the representative-peer strings contain blanks, commas and brackets), and
+  nothing about the dot graph with exposure results. -/
 namespace Netpol.Properties.C09
-open Netpol
+open Netpol Format Engine List
+
+-- ------------------------------------------------------------------------------------------
+-- the triples of the computed result
+
+/-- the triple of a computed entry, as `formSingleP2PConn` forms it -/
+def entryRow (e : Entry) : Row := ⟨e.src.str, e.dst.str, ConnSet.connStrFromProps e.conn.allowAll e.conn.protocolsAndPorts⟩
+
+theorem ofEntry_row (e : Entry) : (Conn.ofEntry e).row = entryRow e := by
+  simp [Conn.ofEntry, Conn.row, entryRow, ofLPeer_str]
+
+/-- the formatters' view of the entries has exactly the entries' triples -/
+theorem conns_rows (entries : List Entry) : (entries.map Conn.ofEntry).map Conn.row = entries.map entryRow := by
+  rw [map_map]; exact map_congr_left (fun e _ => ofEntry_row e)
+
+-- ------------------------------------------------------------------------------------------
+-- (a) list formats
+
+/-- every list format is a renderer applied to a table of rows -/
+theorem list_render (conns : List Conn) (peers : List PeerInfo) :
+    listToString "txt" conns peers = renderTxt (rowsTxt conns) ∧
+    listToString "json" conns peers = renderJson (table conns) ∧
+    listToString "csv" conns peers = renderCsv (table conns) ∧
+    listToString "md" conns peers = renderMd (table conns) ∧
+    listToString "dot" conns peers = renderDot (listNodeLines conns peers) (rowsDot conns) := by
+  refine ⟨?_, ?_, ?_, ?_, ?_⟩
+  · simp [listToString, listTxt_eq]
+  · simp [listToString, listJson]
+  · simp [listToString, listCsv]
+  · simp [listToString, listMd]
+  · simp [listToString, listDot_eq]
+
+/-- the three tables are permutations of the triples of the input: the five formats encode the same relation -/
+theorem list_tables (conns : List Conn) :
+    rowsTxt conns ~ conns.map Conn.row ∧ table conns ~ conns.map Conn.row ∧ rowsDot conns ~ conns.map Conn.row :=
+  ⟨rowsTxt_perm conns, table_perm_rows conns, rowsDot_perm conns⟩
+
+/-- on the computed entries: each table is a permutation of the entries' triples -/
+theorem list_tables_of_entries (entries : List Entry) :
+    rowsTxt (entries.map Conn.ofEntry) ~ entries.map entryRow ∧ table (entries.map Conn.ofEntry) ~ entries.map entryRow ∧
+    rowsDot (entries.map Conn.ofEntry) ~ entries.map entryRow := by
+  rw [← conns_rows]; exact list_tables _
+
+theorem mem_rowsTxt_iff (entries : List Entry) (r : Row) :
+    r ∈ rowsTxt (entries.map Conn.ofEntry) ↔ ∃ e ∈ entries, entryRow e = r := by
+  rw [(list_tables_of_entries entries).1.mem_iff, mem_map]
+
+theorem mem_table_iff (entries : List Entry) (r : Row) :
+    r ∈ table (entries.map Conn.ofEntry) ↔ ∃ e ∈ entries, entryRow e = r := by
+  rw [(list_tables_of_entries entries).2.1.mem_iff, mem_map]
+
+theorem mem_rowsDot_iff (entries : List Entry) (r : Row) :
+    r ∈ rowsDot (entries.map Conn.ofEntry) ↔ ∃ e ∈ entries, entryRow e = r := by
+  rw [(list_tables_of_entries entries).2.2.mem_iff, mem_map]
+
+theorem keysDistinct_nodup {l : List Row} (h : KeysDistinct l) : l.Nodup :=
+  Pairwise.imp (fun hk heq => hk ⟨by rw [heq], by rw [heq]⟩) h
+
+/-- distinct (src, dst) pairs: no row is printed twice, in any format -/
+theorem tables_nodup {conns : List Conn} (h : ConnKeysDistinct conns) :
+    (rowsTxt conns).Nodup ∧ (table conns).Nodup ∧ (rowsDot conns).Nodup :=
+  ⟨(rowsTxt_perm conns).nodup_iff.mpr (keysDistinct_nodup h), (table_perm_rows conns).nodup_iff.mpr (keysDistinct_nodup h),
+    (rowsDot_perm conns).nodup_iff.mpr (keysDistinct_nodup h)⟩
+
+/-- as many rows as entries -/
+theorem table_length (conns : List Conn) :
+    (rowsTxt conns).length = conns.length ∧ (table conns).length = conns.length ∧ (rowsDot conns).length = conns.length := by
+  refine ⟨?_, ?_, ?_⟩
+  · simpa using (rowsTxt_perm conns).length_eq
+  · simpa using (table_perm_rows conns).length_eq
+  · simpa using (rowsDot_perm conns).length_eq
+
+-- ------------------------------------------------------------------------------------------
+-- (b) list formats: parse-back
+
+theorem forall_of_perm {α : Type} {P : α → Prop} {l l' : List α} (hp : l ~ l') (h : ∀ x ∈ l', P x) : ∀ x ∈ l, P x :=
+  fun x hx => h x (hp.mem_iff.mp hx)
+
+theorem forall_rows {P : Row → Prop} {conns : List Conn} (h : ∀ c ∈ conns, P c.row) : ∀ r ∈ conns.map Conn.row, P r := by
+  intro r hr
+  obtain ⟨c, hc, rfl⟩ := mem_map.mp hr
+  exact h c hc
+
+/-- txt: the output is read back to the table. Hypothesis: no blank in a peer string, no newline in a field. -/
+theorem txt_parse_back {conns : List Conn} (peers : List PeerInfo) (h : ∀ c ∈ conns, c.row.TxtWF) :
+    parseTxt (listToString "txt" conns peers) = some (rowsTxt conns) := by
+  rw [(list_render conns peers).1]
+  exact parseTxt_renderTxt (forall_of_perm (rowsTxt_perm conns) (forall_rows h))
+
+/-- json: hypothesis: no character `encoding/json` escapes. -/
+theorem json_parse_back {conns : List Conn} (peers : List PeerInfo) (h : ∀ c ∈ conns, c.row.JsonWF) :
+    parseJson (listToString "json" conns peers) = some (table conns) := by
+  rw [(list_render conns peers).2.1]
+  exact parseJson_renderJson (forall_of_perm (table_perm_rows conns) (forall_rows h))
+
+/-- csv: hypothesis: no quote and no newline in a field (commas are quoted by the writer and read back). -/
+theorem csv_parse_back {conns : List Conn} (peers : List PeerInfo) (h : ∀ c ∈ conns, c.row.CsvWF) :
+    parseCsv (listToString "csv" conns peers) = some (table conns) := by
+  rw [(list_render conns peers).2.2.1]
+  exact parseCsv_renderCsv (forall_of_perm (table_perm_rows conns) (forall_rows h))
+
+/-- md: hypothesis: no `|` and no newline in a field. -/
+theorem md_parse_back {conns : List Conn} (peers : List PeerInfo) (h : ∀ c ∈ conns, c.row.MdWF) :
+    parseMd (listToString "md" conns peers) = some (table conns) := by
+  rw [(list_render conns peers).2.2.2.1]
+  exact parseMd_renderMd (forall_of_perm (table_perm_rows conns) (forall_rows h))
+
+/-- what the dot format needs of a row: no character `%q` escapes -/
+def RowDotWF (r : Row) : Prop := QuotePlain r.src ∧ QuotePlain r.dst ∧ QuotePlain r.conn
+instance (r : Row) : Decidable (RowDotWF r) := by unfold RowDotWF; infer_instance
+
+theorem RowDotWF.edge {r : Row} (h : RowDotWF r) : r.edge.WF :=
+  ⟨h.1, h.2.1, h.2.2, (by decide : QuotePlain "gold2"), (by decide : QuotePlain "darkgreen")⟩
+
+/-- dot: the edge lines are read back to the table (as edges); node, cluster and closing lines do not read as edges.
+Hypotheses: no character `%q` escapes in the rows and in the strings / labels of the drawn peers, no newline in a
+namespace name. -/
+theorem dot_parse_back {conns : List Conn} {peers : List PeerInfo} (h : ∀ c ∈ conns, RowDotWF c.row)
+    (hp : ∀ p ∈ listVisitSeq conns peers, p.DotWF) :
+    parseDotEdges (listToString "dot" conns peers) = (rowsDot conns).map Row.edge := by
+  rw [(list_render conns peers).2.2.2.2]
+  apply parseDotEdges_renderDot (listNodeLines_notEdge hp)
+  intro r hr
+  exact (forall_of_perm (rowsDot_perm conns) (forall_rows h) r hr).edge
+
+theorem Row.edge_injective : Function.Injective Row.edge := by
+  intro a b h
+  cases a; cases b
+  simp only [Row.edge, DotEdge.mk.injEq] at h
+  simp [h.1, h.2.1, h.2.2.1]
+
+theorem map_edge_injective : ∀ {a b : List Row}, a.map Row.edge = b.map Row.edge → a = b
+  | [], [], _ => rfl
+  | [], _ :: _, h => by simp at h
+  | _ :: _, [], h => by simp at h
+  | x :: xs, y :: ys, h => by
+    simp only [map_cons, cons.injEq] at h
+    rw [Row.edge_injective h.1, map_edge_injective h.2]
+
+/-- equal tables up to order: the same multiset of triples -/
+theorem perm_of_tables_eq {rows rows' : List Row} {c c' : List Conn} (h1 : rows ~ c.map Conn.row) (h2 : rows' ~ c'.map Conn.row)
+    (h : rows = rows') : c.map Conn.row ~ c'.map Conn.row := h1.symm.trans (h ▸ h2)
+
+/-- txt: two reports with the same output have the same triples -/
+theorem txt_output_determines_triples {c c' : List Conn} (p p' : List PeerInfo) (h : ∀ x ∈ c, x.row.TxtWF) (h' : ∀ x ∈ c', x.row.TxtWF)
+    (heq : listToString "txt" c p = listToString "txt" c' p') : c.map Conn.row ~ c'.map Conn.row := by
+  have a := txt_parse_back p h
+  rw [heq, txt_parse_back p' h'] at a
+  exact perm_of_tables_eq (rowsTxt_perm c) (rowsTxt_perm c') (Option.some.inj a).symm
+
+theorem json_output_determines_triples {c c' : List Conn} (p p' : List PeerInfo) (h : ∀ x ∈ c, x.row.JsonWF) (h' : ∀ x ∈ c', x.row.JsonWF)
+    (heq : listToString "json" c p = listToString "json" c' p') : c.map Conn.row ~ c'.map Conn.row := by
+  have a := json_parse_back p h
+  rw [heq, json_parse_back p' h'] at a
+  exact perm_of_tables_eq (table_perm_rows c) (table_perm_rows c') (Option.some.inj a).symm
+
+theorem csv_output_determines_triples {c c' : List Conn} (p p' : List PeerInfo) (h : ∀ x ∈ c, x.row.CsvWF) (h' : ∀ x ∈ c', x.row.CsvWF)
+    (heq : listToString "csv" c p = listToString "csv" c' p') : c.map Conn.row ~ c'.map Conn.row := by
+  have a := csv_parse_back p h
+  rw [heq, csv_parse_back p' h'] at a
+  exact perm_of_tables_eq (table_perm_rows c) (table_perm_rows c') (Option.some.inj a).symm
+
+theorem md_output_determines_triples {c c' : List Conn} (p p' : List PeerInfo) (h : ∀ x ∈ c, x.row.MdWF) (h' : ∀ x ∈ c', x.row.MdWF)
+    (heq : listToString "md" c p = listToString "md" c' p') : c.map Conn.row ~ c'.map Conn.row := by
+  have a := md_parse_back p h
+  rw [heq, md_parse_back p' h'] at a
+  exact perm_of_tables_eq (table_perm_rows c) (table_perm_rows c') (Option.some.inj a).symm
+
+theorem dot_output_determines_triples {c c' : List Conn} {p p' : List PeerInfo} (h : ∀ x ∈ c, RowDotWF x.row) (h' : ∀ x ∈ c', RowDotWF x.row)
+    (hp : ∀ x ∈ listVisitSeq c p, x.DotWF) (hp' : ∀ x ∈ listVisitSeq c' p', x.DotWF)
+    (heq : listToString "dot" c p = listToString "dot" c' p') : c.map Conn.row ~ c'.map Conn.row := by
+  have a := dot_parse_back h hp
+  rw [heq, dot_parse_back h' hp'] at a
+  exact perm_of_tables_eq (rowsDot_perm c) (rowsDot_perm c') (map_edge_injective a).symm
+
+/-- the renderers of the shared table are injective on well-formed tables -/
+theorem renderJson_injective {rows rows' : List Row} (h : ∀ r ∈ rows, r.JsonWF) (h' : ∀ r ∈ rows', r.JsonWF)
+    (heq : renderJson rows = renderJson rows') : rows = rows' := by
+  have a := parseJson_renderJson h
+  rw [heq, parseJson_renderJson h'] at a
+  exact (Option.some.inj a).symm
+
+theorem renderCsv_injective {rows rows' : List Row} (h : ∀ r ∈ rows, r.CsvWF) (h' : ∀ r ∈ rows', r.CsvWF)
+    (heq : renderCsv rows = renderCsv rows') : rows = rows' := by
+  have a := parseCsv_renderCsv h
+  rw [heq, parseCsv_renderCsv h'] at a
+  exact (Option.some.inj a).symm
+
+theorem renderMd_injective {rows rows' : List Row} (h : ∀ r ∈ rows, r.MdWF) (h' : ∀ r ∈ rows', r.MdWF)
+    (heq : renderMd rows = renderMd rows') : rows = rows' := by
+  have a := parseMd_renderMd h
+  rw [heq, parseMd_renderMd h'] at a
+  exact (Option.some.inj a).symm
+
+theorem renderTxt_injective {rows rows' : List Row} (h : ∀ r ∈ rows, r.TxtWF) (h' : ∀ r ∈ rows', r.TxtWF)
+    (heq : renderTxt rows = renderTxt rows') : rows = rows' := by
+  have a := parseTxt_renderTxt h
+  rw [heq, parseTxt_renderTxt h'] at a
+  exact (Option.some.inj a).symm
+
+-- ------------------------------------------------------------------------------------------
+-- (a) exposure sections
+
+/-- the egress / ingress tables are permutations of the exposure rows of the direction -/
+theorem exposure_tables (conns : List Conn) (xs : List XPeerF) :
+    egressRows conns xs ~ xRows conns xs false ∧ ingressRows conns xs ~ xRows conns xs true :=
+  ⟨egressRows_perm_self conns xs, ingressRows_perm_self conns xs⟩
+
+/-- the exposure rows of a direction: per exposed peer, the entire-cluster row of an unprotected peer or one row per
+exposure entry of a protected one, and the report's connections between that peer and IP blocks -/
+theorem mem_xRows_iff (conns : List Conn) (xs : List XPeerF) (isIngress : Bool) (r : Row) :
+    r ∈ xRows conns xs isIngress ↔ ∃ p ∈ xs,
+      ((if isIngress then p.ingProtected else p.egProtected) = false ∧
+        r = xItemRow p.peer.str isIngress ⟨true, none, none, "All Connections"⟩) ∨
+      ((if isIngress then p.ingProtected else p.egProtected) = true ∧
+        ∃ x ∈ (if isIngress then p.ing else p.eg), r = xItemRow p.peer.str isIngress x) ∨
+      (∃ c ∈ conns, (if isIngress then c.src.isIP && c.dst.str == p.peer.str else c.dst.isIP && c.src.str == p.peer.str) = true ∧
+        r = c.row) := by
+  unfold xRows
+  simp only [mem_flatMap, mem_append, mem_map, mem_filter]
+  constructor
+  · rintro ⟨p, hp, h | ⟨c, ⟨hc, hcond⟩, rfl⟩⟩
+    · refine ⟨p, hp, ?_⟩
+      cases hprot : (if isIngress then p.ingProtected else p.egProtected)
+      · simp only [hprot, Bool.not_false, ↓reduceIte, mem_cons, not_mem_nil, or_false] at h
+        exact Or.inl ⟨rfl, h⟩
+      · simp only [hprot, Bool.not_true, Bool.false_eq_true, ↓reduceIte, mem_map] at h
+        obtain ⟨x, hx, rfl⟩ := h
+        exact Or.inr (Or.inl ⟨rfl, x, hx, rfl⟩)
+    · exact ⟨p, hp, Or.inr (Or.inr ⟨c, hc, hcond, rfl⟩)⟩
+  · rintro ⟨p, hp, ⟨hprot, rfl⟩ | ⟨hprot, x, hx, rfl⟩ | ⟨c, hc, hcond, rfl⟩⟩
+    · exact ⟨p, hp, Or.inl (by simp [hprot])⟩
+    · exact ⟨p, hp, Or.inl (by simp only [hprot, Bool.not_true, Bool.false_eq_true, ↓reduceIte, mem_map]; exact ⟨x, hx, rfl⟩)⟩
+    · exact ⟨p, hp, Or.inr ⟨c, ⟨hc, hcond⟩, rfl⟩⟩
+
+-- ------------------------------------------------------------------------------------------
+-- (a) diff formats
+
+/-- the row of a computed diff entry: both connection strings and the annotation of `getDiffInfo` -/
+def dentryRow (e : Diff.DEntry) : DRow :=
+  ⟨e.typ, e.src, e.dst, e.c1, e.c2,
+    if e.newSrc || e.newDst then
+      "workload " ++ (if e.newSrc then e.src else "") ++ (if e.newSrc && e.newDst then " and " else "") ++
+        (if e.newDst then e.dst else "") ++ " " ++ e.typ
+    else ""⟩
+
+theorem dconn_row (d : DConn) : d.row = dentryRow d.toDEntry := rfl
+
+/-- the entries the diff formatters work on are the computed diff of `Model/Diff.lean` (`Diff.compute`, the subject of
+C04) — provided no real workload is named `ingress-controller` (the Go code exempts every peer of that name from the
+new/lost annotation, `Diff.isWorkloadAbsent` only the pseudo peer) -/
+theorem diff_entries_are_computed_diff (e1 e2 : List Entry) (p1 p2 : List LPeer)
+    (h : ∀ kp ∈ Diff.mergeIPblocks (DiffLayer.diffMap
+        (Diff.refine (e1.map Diff.ofEntry) (Diff.disjointBlocks (Diff.ipBlocksOf (e1.map Diff.ofEntry)) (Diff.ipBlocksOf (e2.map Diff.ofEntry))))
+        (Diff.refine (e2.map Diff.ofEntry) (Diff.disjointBlocks (Diff.ipBlocksOf (e1.map Diff.ofEntry)) (Diff.ipBlocksOf (e2.map Diff.ofEntry))))),
+      ∀ x, (kp.2.first = some x ∨ kp.2.second = some x) → ICOnlyFake x.src ∧ ICOnlyFake x.dst) :
+    (diffConns e1 e2 p1 p2).map DConn.toDEntry = Diff.compute e1 e2 p1 p2 :=
+  diffConnsLists_toDEntry _ _ _ _ h
+
+/-- every diff format is a renderer applied to a table of rows (for a non-empty diff) -/
+theorem diff_render (ref1 ref2 : String) {ds : List DConn} (h : diffIsEmpty ds = false) :
+    diffToString "txt" ref1 ref2 ds = renderDiffTxt ref1 ref2 (diffRows (DRow.txtLine ref1 ref2) ds) ∧
+    diffToString "csv" ref1 ref2 ds = renderDiffCsv ref1 ref2 (diffRows DRow.csvLine ds) ∧
+    diffToString "md" ref1 ref2 ds = renderDiffMd ref1 ref2 (diffRows DRow.mdLine ds) ∧
+    diffToString "dot" ref1 ref2 ds = renderDiffDot ref1 (diffNodeLines ds) (diffDotRows ref1 ds) := by
+  refine ⟨?_, ?_, ?_, ?_⟩
+  · simp [diffToString, h, diffTxt_eq]
+  · simp [diffToString, h, diffCsv_eq]
+  · simp [diffToString, h, diffMd_eq]
+  · simp [diffToString, h, diffDot_eq]
+
+/-- an empty diff (no changed, added or removed entry) prints nothing, in every format -/
+theorem diff_empty (f ref1 ref2 : String) {ds : List DConn} (h : diffIsEmpty ds = true) : diffToString f ref1 ref2 ds = "" := by
+  simp [diffToString, h]
+
+/-- txt, csv, md: the table holds exactly the changed, added and removed entries, each once -/
+theorem diff_tables (line : DRow → String) (ds : List DConn) :
+    diffRows line ds ~ ((ds.filter DConn.reported).map DConn.toDEntry).map dentryRow := by
+  rw [map_map]
+  exact diffRows_perm line ds
+
+/-- dot: the edges are those of the changed, added, removed and unchanged entries, each once -/
+theorem diff_dot_table (ref1 : String) (ds : List DConn) :
+    diffDotRows ref1 ds ~ ((ds.filter DConn.drawn).map DConn.toDEntry).map dentryRow := by
+  rw [map_map]
+  exact diffDotRows_perm ref1 ds
+
+theorem mem_diffRows_iff (line : DRow → String) (ds : List DConn) (r : DRow) :
+    r ∈ diffRows line ds ↔ ∃ d ∈ ds, d.reported = true ∧ d.row = r := by
+  rw [(diffRows_perm line ds).mem_iff, mem_map]
+  constructor
+  · rintro ⟨d, hd, rfl⟩
+    exact ⟨d, (mem_filter.mp hd).1, (mem_filter.mp hd).2, rfl⟩
+  · rintro ⟨d, hd, hr, rfl⟩
+    exact ⟨d, mem_filter.mpr ⟨hd, hr⟩, rfl⟩
+
+theorem mem_diffDotRows_iff (ref1 : String) (ds : List DConn) (r : DRow) :
+    r ∈ diffDotRows ref1 ds ↔ ∃ d ∈ ds, d.drawn = true ∧ d.row = r := by
+  rw [(diffDotRows_perm ref1 ds).mem_iff, mem_map]
+  constructor
+  · rintro ⟨d, hd, rfl⟩
+    exact ⟨d, (mem_filter.mp hd).1, (mem_filter.mp hd).2, rfl⟩
+  · rintro ⟨d, hd, hr, rfl⟩
+    exact ⟨d, mem_filter.mpr ⟨hd, hr⟩, rfl⟩
+
+/-- the computed diff only has the four types (so the dot graph draws every entry) -/
+theorem classify_drawn {p1 p2 : List String} {kp : String × Diff.Pair} {d : DConn} (h : classify p1 p2 kp = some d) :
+    d.drawn = true := by
+  obtain ⟨k, pr⟩ := kp
+  cases hf : pr.first <;> cases hs : pr.second <;> simp only [classify, hf, hs, Option.some.injEq] at h
+  · cases h
+  · subst h; simp [DConn.drawn]
+  · subst h; simp [DConn.drawn]
+  · subst h
+    simp only [DConn.drawn]
+    split <;> simp
+
+theorem diffConns_drawn (e1 e2 : List Entry) (p1 p2 : List LPeer) : ∀ d ∈ diffConns e1 e2 p1 p2, d.drawn = true := by
+  intro d hd
+  unfold diffConns diffConnsLists at hd
+  obtain ⟨kp, _, hk⟩ := mem_filterMap.mp hd
+  exact classify_drawn hk
+
+-- ------------------------------------------------------------------------------------------
+-- (b) diff formats: parse-back
+
+theorem forall_drows {P : DRow → Prop} {ds : List DConn} {rows : List DRow} (hp : rows ~ (ds.filter DConn.reported).map DConn.row)
+    (h : ∀ d ∈ ds, P d.row) : ∀ r ∈ rows, P r := by
+  intro r hr
+  obtain ⟨d, hd, rfl⟩ := mem_map.mp (hp.mem_iff.mp hr)
+  exact h d (mem_filter.mp hd).1
+
+/-- diff txt: hypothesis: no `", "` in the type, peer and connection strings, no newline anywhere. -/
+theorem diff_txt_parse_back {ref1 ref2 : String} (h1 : NoNL ref1) (h2 : NoNL ref2) {ds : List DConn}
+    (hne : diffIsEmpty ds = false) (h : ∀ d ∈ ds, d.row.TxtWF) :
+    parseDiffTxt ref1 ref2 (diffToString "txt" ref1 ref2 ds) = some (diffRows (DRow.txtLine ref1 ref2) ds) := by
+  rw [(diff_render ref1 ref2 hne).1]
+  exact parseDiffTxt_renderDiffTxt h1 h2 (forall_drows (diffRows_perm _ ds) h)
+
+/-- diff csv: hypothesis: no quote, newline or `;` in a field. -/
+theorem diff_csv_parse_back {ref1 ref2 : String} (h1 : NoNL ref1) (h2 : NoNL ref2) {ds : List DConn}
+    (hne : diffIsEmpty ds = false) (h : ∀ d ∈ ds, d.row.Free ['"', '\n', ';']) :
+    parseDiffCsv (diffToString "csv" ref1 ref2 ds) = some (diffRows DRow.csvLine ds) := by
+  rw [(diff_render ref1 ref2 hne).2.1]
+  exact parseDiffCsv_renderDiffCsv h1 h2 (forall_drows (diffRows_perm _ ds) h)
+
+/-- diff md: hypothesis: no `|` and no newline in a field. -/
+theorem diff_md_parse_back {ref1 ref2 : String} (h1 : NoNL ref1) (h2 : NoNL ref2) {ds : List DConn}
+    (hne : diffIsEmpty ds = false) (h : ∀ d ∈ ds, d.row.Free ['|', '\n']) :
+    parseDiffMd (diffToString "md" ref1 ref2 ds) = some (diffRows DRow.mdLine ds) := by
+  rw [(diff_render ref1 ref2 hne).2.2.1]
+  exact parseDiffMd_renderDiffMd h1 h2 (forall_drows (diffRows_perm _ ds) h)
+
+/-- diff dot: the edges (src, dst, label, colour — the colour is the diff type, the label holds the connection of
+`ref2`, for changed entries also that of `ref1`) are read back. -/
+theorem diff_dot_parse_back (ref1 ref2 : String) {ds : List DConn} (hne : diffIsEmpty ds = false)
+    (h : ∀ d ∈ ds, (d.row.edge ref1).WF) (hp : ∀ v ∈ diffVisitSeq ds, v.1.DotWF) :
+    parseDotEdges (diffToString "dot" ref1 ref2 ds) = (diffDotRows ref1 ds).map (DRow.edge ref1) := by
+  rw [(diff_render ref1 ref2 hne).2.2.2]
+  apply parseDotEdges_renderDiffDot ref1 (diffNodeLines_notEdge hp)
+  intro r hr
+  obtain ⟨d, hd, rfl⟩ := mem_map.mp ((diffDotRows_perm ref1 ds).mem_iff.mp hr)
+  exact h d (mem_filter.mp hd).1
+
+/-- two non-empty diffs with the same txt output have the same changed / added / removed entries -/
+theorem diff_txt_output_determines_rows {ref1 ref2 : String} (h1 : NoNL ref1) (h2 : NoNL ref2) {ds ds' : List DConn}
+    (hne : diffIsEmpty ds = false) (hne' : diffIsEmpty ds' = false) (h : ∀ d ∈ ds, d.row.TxtWF) (h' : ∀ d ∈ ds', d.row.TxtWF)
+    (heq : diffToString "txt" ref1 ref2 ds = diffToString "txt" ref1 ref2 ds') :
+    (ds.filter DConn.reported).map DConn.row ~ (ds'.filter DConn.reported).map DConn.row := by
+  have a := diff_txt_parse_back h1 h2 hne h
+  rw [heq, diff_txt_parse_back h1 h2 hne' h'] at a
+  exact (diffRows_perm _ ds).symm.trans ((Option.some.inj a).symm ▸ diffRows_perm _ ds')
+
+theorem diff_csv_output_determines_rows {ref1 ref2 : String} (h1 : NoNL ref1) (h2 : NoNL ref2) {ds ds' : List DConn}
+    (hne : diffIsEmpty ds = false) (hne' : diffIsEmpty ds' = false) (h : ∀ d ∈ ds, d.row.Free ['"', '\n', ';'])
+    (h' : ∀ d ∈ ds', d.row.Free ['"', '\n', ';'])
+    (heq : diffToString "csv" ref1 ref2 ds = diffToString "csv" ref1 ref2 ds') :
+    (ds.filter DConn.reported).map DConn.row ~ (ds'.filter DConn.reported).map DConn.row := by
+  have a := diff_csv_parse_back h1 h2 hne h
+  rw [heq, diff_csv_parse_back h1 h2 hne' h'] at a
+  exact (diffRows_perm _ ds).symm.trans ((Option.some.inj a).symm ▸ diffRows_perm _ ds')
+
+theorem diff_md_output_determines_rows {ref1 ref2 : String} (h1 : NoNL ref1) (h2 : NoNL ref2) {ds ds' : List DConn}
+    (hne : diffIsEmpty ds = false) (hne' : diffIsEmpty ds' = false) (h : ∀ d ∈ ds, d.row.Free ['|', '\n'])
+    (h' : ∀ d ∈ ds', d.row.Free ['|', '\n'])
+    (heq : diffToString "md" ref1 ref2 ds = diffToString "md" ref1 ref2 ds') :
+    (ds.filter DConn.reported).map DConn.row ~ (ds'.filter DConn.reported).map DConn.row := by
+  have a := diff_md_parse_back h1 h2 hne h
+  rw [heq, diff_md_parse_back h1 h2 hne' h'] at a
+  exact (diffRows_perm _ ds).symm.trans ((Option.some.inj a).symm ▸ diffRows_perm _ ds')
+
+-- ------------------------------------------------------------------------------------------
+-- the hypotheses are satisfiable: a report with an IP block, a workload, the ingress controller and a connection
+-- string with commas; a diff with a changed, an added (new workload) and a removed entry
+
+def ipAll : PeerInfo := ⟨"0.0.0.0-255.255.255.255", "", "", "", true⟩
+def wlA : PeerInfo := ⟨"ns1/web[Deployment]", "web", "ns1", "Deployment", false⟩
+def wlB : PeerInfo := ⟨"ns-2/db[StatefulSet]", "db", "ns-2", "StatefulSet", false⟩
+def wlC : PeerInfo := ⟨"ns1/new[Job]", "new", "ns1", "Job", false⟩
+def ic : PeerInfo := ⟨"{ingress-controller}", "ingress-controller", "ingress-controller-ns", "Pod", false⟩
+
+def exConns : List Conn :=
+  [⟨wlA, wlB, "SCTP 1-80,8080-9090,TCP 81,UDP 80-8080"⟩, ⟨ipAll, wlA, "All Connections"⟩, ⟨ic, wlA, "TCP 8080"⟩, ⟨wlB, ipAll, "UDP 53"⟩]
+
+example : parseTxt (listToString "txt" exConns [wlA, wlB]) = some (rowsTxt exConns) := txt_parse_back _ (by decide)
+example : parseJson (listToString "json" exConns [wlA, wlB]) = some (table exConns) := json_parse_back _ (by decide)
+example : parseCsv (listToString "csv" exConns [wlA, wlB]) = some (table exConns) := csv_parse_back _ (by decide)
+example : parseMd (listToString "md" exConns [wlA, wlB]) = some (table exConns) := md_parse_back _ (by decide)
+example : parseDotEdges (listToString "dot" exConns [wlA, wlB]) = (rowsDot exConns).map Row.edge :=
+  dot_parse_back (by decide) (by decide)
+example : ConnKeysDistinct exConns := by unfold ConnKeysDistinct KeysDistinct; decide
+set_option maxRecDepth 100000 in
+/-- the csv writer quotes a connection string with commas -/
+example : renderCsv [⟨"ns1/web[Deployment]", "ns-2/db[StatefulSet]", "TCP 81,UDP 80-8080"⟩, ⟨"{ingress-controller}", "ns1/web[Deployment]", "TCP 8080"⟩] =
+    "src,dst,conn\nns1/web[Deployment],ns-2/db[StatefulSet],\"TCP 81,UDP 80-8080\"\n{ingress-controller},ns1/web[Deployment],TCP 8080\n" := by
+  decide
+
+def exDiff : List DConn :=
+  [⟨"changed", wlA, wlB, "TCP 80", "TCP 80,UDP 53", false, false⟩, ⟨"added", wlC, ipAll, "No Connections", "All Connections", true, false⟩,
+   ⟨"added", wlC, wlA, "No Connections", "TCP 80", true, false⟩,
+   ⟨"removed", ic, wlA, "TCP 8080", "No Connections", false, false⟩, ⟨"unchanged", ipAll, wlA, "All Connections", "All Connections", false, false⟩]
+
+example : parseDiffTxt "dir1" "dir2" (diffToString "txt" "dir1" "dir2" exDiff) = some (diffRows (DRow.txtLine "dir1" "dir2") exDiff) :=
+  diff_txt_parse_back (by decide) (by decide) (by decide) (by decide)
+example : parseDiffCsv (diffToString "csv" "dir1" "dir2" exDiff) = some (diffRows DRow.csvLine exDiff) :=
+  diff_csv_parse_back (by decide) (by decide) (by decide) (by decide)
+example : parseDiffMd (diffToString "md" "dir1" "dir2" exDiff) = some (diffRows DRow.mdLine exDiff) :=
+  diff_md_parse_back (by decide) (by decide) (by decide) (by decide)
+example : parseDotEdges (diffToString "dot" "dir1" "dir2" exDiff) = (diffDotRows "dir1" exDiff).map (DRow.edge "dir1") :=
+  diff_dot_parse_back "dir1" "dir2" (by decide) (by decide) (by decide)
 
 end Netpol.Properties.C09
